@@ -620,6 +620,40 @@ def section_formats():
         for k in range(N + 1):
             if not close(full(idx, a[s], (k,)), full(idx, b[s], (k,)), 1e-7):
                 fail("formats", "biorthogonal eigenbasis is not equivalent to rotating the Hamiltonian first", output=NAMES[s], order=k)
+    # 5. rounding noise within atol in H_0 (between the blocks and inside them) is treated as zero whatever the value type: dense, sparse, pre-blocked with sparse or dense blocks
+    cases += 1
+    E4 = np.diag([0.0, 1.0, 3.0, 4.5])
+    noise = np.zeros((4, 4))
+    noise[0, 2] = noise[2, 0] = 1e-14
+    noise[0, 1] = noise[1, 0] = 3e-13
+    noise[1, 3] = noise[3, 1] = -2e-15
+    P1 = herm_rand(np.random.default_rng(77), 4, cplx=False).real
+    clean = block_diagonalize([E4, P1], subspace_indices=[0, 0, 1, 1])
+    idx4 = [[0, 1], [2, 3]]
+
+    def blocked(A, conv):
+        return [[conv(A[:2, :2]), conv(A[:2, 2:])], [conv(A[2:, :2]), conv(A[2:, 2:])]]
+    noisy_inputs = {"dense": ([E4 + noise, P1], {"subspace_indices": [0, 0, 1, 1]}), "csr": ([sparse.csr_array(E4 + noise), sparse.csr_array(P1)], {"subspace_indices": [0, 0, 1, 1]}),
+                    "coo": ([sparse.coo_array(E4 + noise), sparse.coo_array(P1)], {"subspace_indices": [0, 0, 1, 1]}),
+                    "pre-blocked dense": ([blocked(E4 + noise, np.array), blocked(P1, np.array)], {}), "pre-blocked csr": ([blocked(E4 + noise, sparse.csr_array), blocked(P1, sparse.csr_array)], {})}
+    for vname, (ham, kw) in noisy_inputs.items():
+        try:
+            res = block_diagonalize(ham, **kw)
+            for s in range(3):
+                for k in range(N + 1):
+                    if not close(full(idx4, res[s], (k,)), full(idx4, clean[s], (k,)), 1e-9) and k > 0:
+                        fail("formats", "rounding noise within atol in H_0 changes the result", value_type=vname, output=NAMES[s], order=k)
+        except Exception as e:  # noqa: BLE001
+            fail("formats", "H_0 with rounding noise within atol is rejected for this value type only", value_type=vname, error=repr(e)[:200])
+    # 6. a symbolic Hamiltonian without `symbols`: the order axes are the free symbols sorted by name (in particular the same in every run)
+    cases += 1
+    sa, sb, sc = sympy.symbols("a b c")
+    Hs3 = sympy.Matrix([[-1 + sa + 2 * sb, sa * sb + sc], [sa * sb + sc, 1 - sa + 3 * sc]])
+    out3 = block_diagonalize(Hs3, subspace_indices=[0, 1])[0]
+    if list(out3.dimension_names) != [sa, sb, sc]:
+        fail("formats", "symbolic Hamiltonian without symbols=: the order axes are not the free symbols sorted by name", got=str(out3.dimension_names))
+    elif sympy.simplify(sympy.Matrix(out3[0, 0, 0, 1, 0])[0, 0] - 2 * sb) != 0:      # (symbolic input keeps the monomial in the value)
+        fail("formats", "symbolic Hamiltonian without symbols=: first order in b is not the coefficient of b", got=str(out3[0, 0, 0, 1, 0]))
 
 
 def section_implicit():
